@@ -2,6 +2,7 @@ import Momo.Proof.HashTableMerge
 import Momo.Proof.HashTableSummary
 import Momo.Proof.ObjMain
 import Momo.Proof.ArrFaultDone
+import Momo.Proof.ArrSegFaultOps
 import Momo.Proof.BTreeFaultMergeTo
 import Momo.Proof.BTreeHistory
 /-!
@@ -282,3 +283,52 @@ example : (insertRangeF (x10Fail 2 2) x10Ic x10Cfg x10Lt x10Dst [(1, 3), (3, 3),
       [(1, 3), (2, 2), (3, 3), (4, 2), (6, 2), (7, 2), (8, 2)] := by decide +kernel
 
 end Momo.BTreeF
+
+/-!
+## `momo::SegmentedArray`: positional insert / remove under every fault schedule (model `Momo/Model/ArrSegFault.lean`)
+`InsertCrt / InsertVar / Insert(index, item)`, `Insert(index, count, item)`, `Insert(index, begin, end)`,
+`Remove(index, count)`, `Remove(filter)`: `ItemHandler`, `Reserve(mCount + count)`, then the same `ArrayShifter` programs
+as for `Array`, run on the item sequence.  `SValid` as in Props/C04.lean.
+-/
+namespace Momo.ArrF.Seg
+open Momo.Arr Momo.Arr.Seg Momo.ArrF
+variable {α : Type}
+
+/-- **C10, SegmentedArray.** Under EVERY fault schedule every operation of the model - the basic ones and the strong
+ones - leaves a valid array with an exact ledger (`SValid`: count within the capacity of the allocated segments, exactly
+`count` item objects, exactly the segments `0 .. segCount)` and the pointer-array block outstanding, no double release);
+a completed call yields the state of the fault-free model `Momo.Arr.Seg` (for `Shrink`: a valid state with the same
+items - the swallowed failure of `mSegments.Shrink()` leaves the pointer array larger); after an exception the count lies
+between the old and the intended new count. -/
+theorem C10_segarray_basic_every_fault (cfg : SCfg) (thr : Thr) (k : Nat) (op : SOp α) (x : SSys α)
+    (v : SValid cfg k x) (hpre : op.pre x.st) :
+    SPost (stepS cfg thr op) x
+      (fun _ y => SValid cfg k y ∧ ((∀ n, op ≠ .shrink n) → y.st = (pureStepS cfg x.st op).1))
+      (fun y => SValid cfg k y ∧ x.cells.length ≤ y.cells.length ∧ y.cells.length ≤ x.cells.length + op.maxAdd) :=
+  basic_stepS cfg thr k op x v hpre
+
+/-! Non-vacuity: constant sizing with segments of 2 items, 3 items in 2 segments, pointer array of capacity 4;
+`Insert(0, 2, array[2])` needs one more segment and shifts three items. -/
+def exCfgT : SCfg := { lay := { sqrt := false, L := 1 } }
+def exSysT (faults : List Bool) : SSys Nat :=
+  { cells := [.live 10, .live 11, .live 12], segs := { cells := [.live 0, .live 1], cap := 4 }, faults := faults,
+    sblocks := [2, 2], pblocks := [4], objs := 3 }
+def outcomeT {β : Type} (r : Res β × SSys Nat) : Bool × Cells Nat × Nat × List Nat × List Nat × Nat × Bool :=
+  (match r.1 with | .ok _ => true | .threw => false, r.2.cells, r.2.segs.cells.length, r.2.sblocks, r.2.pblocks, r.2.objs, r.2.bad)
+
+example : SValid exCfgT 0 (exSysT []) := by
+  refine ⟨⟨⟨by decide, ?_, ?_, ?_⟩, ?_, by decide, rfl⟩, by decide, by decide⟩
+  · intro _ _; decide
+  · intro h; simp [exSysT] at h
+  · intro _ h; simp [exSysT] at h
+  · show List.Perm [2, 2] (segSizes exCfgT 2)
+    have : segSizes exCfgT 2 = [2, 2] := by decide
+    rw [this]
+/-- an item type whose move constructor can throw: the second move construction of the shifting loop throws - one item
+    appended (its source is moved-from), handler destroyed, the new segment stays (owned) -/
+example : outcomeT ((stepS exCfgT { copy := true, move := true } (.insertN 0 2 (.elem 2))).run (exSysT [false, false, false, true]))
+    = (false, [.live 10, .moved, .live 12, .live 11], 3, [2, 2, 2], [4], 4, false) := by decide
+example : outcomeT ((stepS exCfgT { copy := true, move := true } (.insertN 0 2 (.elem 2))).run (exSysT []))
+    = (true, [.live 12, .live 12, .live 10, .live 11, .live 12], 3, [2, 2, 2], [4], 5, false) := by decide
+
+end Momo.ArrF.Seg
